@@ -292,8 +292,20 @@ theorem rtb_runBlock_section (name : Option (List Tok)) (p : SPad) (cs : CharSpe
 /-! ### a `>>` metadata line -/
 
 def MetaMatches (cs : CharSpec) (key value : List Tok) : Ev α → Prop
-  | .metadata k v => k.trimmed cs = leafText key ∧ v.trimmed cs = leafText value
+  | .metadata k v => k.trimmed cs = leafText key ∧ v.trimmed cs = leafText value ∧ v.outerTrimmed cs = leafText value
   | _ => False
+
+/-- the text assembled from a padded leaf, trimmed at both ends only (`Text::text_outer_trimmed`, what the
+    analysis stores as a metadata value), is the leaf's string -/
+theorem rt_leaf_outerTrimmed {cs : CharSpec} {allowed : TK → Bool} {pre l post ts : List Tok}
+    (hs : Spells ts (pre ++ l ++ post)) (hpre : padOK cs pre = true) (hpost : padOK cs post = true)
+    (hl : leafOK cs allowed l = true) (off : Nat) :
+    (buildText off ts).outerTrimmed cs = leafText l := by
+  have lf := leafOK_facts hl
+  unfold Text.outerTrimmed
+  rw [buildText_text, hs.vis_eq]
+  simp only [List.flatMap_append]
+  rw [leaf_vis lf, rt_trim_leaf lf _ _ (pad_vis_uws hpre) (pad_vis_uws hpost)]
 
 def metaOK (cs : CharSpec) (key value : List Tok) (p : MPad) : Bool :=
   p.ok cs && leafOK cs keyKind key && leafOK cs metaValKind value
@@ -308,7 +320,7 @@ theorem rtb_metadataEntry (key value : List Tok) (p : MPad) (s : BP α) (hok : m
     (ts : List Tok) (hs : Spells ts (spellMeta key value p)) (ht : s.toks = ts) (hc : s.cur = 0)
     (hrun : RunAt (baseOff ts) ts) :
     ∃ k v : Text, metadataEntry s = (some (.metadata k v), { s with cur := ts.length }) ∧
-      k.trimmed s.cs = leafText key ∧ v.trimmed s.cs = leafText value := by
+      k.trimmed s.cs = leafText key ∧ v.trimmed s.cs = leafText value ∧ v.outerTrimmed s.cs = leafText value := by
   subst ht
   simp only [metaOK, Bool.and_eq_true] at hok
   obtain ⟨⟨hp, hkey⟩, hval⟩ := hok
@@ -360,7 +372,10 @@ theorem rtb_metadataEntry (key value : List Tok) (p : MPad) (s : BP α) (hok : m
   have hvl := rt_leaf_text (cs := s.cs) (allowed := metaValKind) (pre := p.c) (l := value) (post := p.d)
     (ts := tc ++ tv ++ td) ((htc.append htv).append htd) hpc hpd hval
     (offAt s.toks ((tm :: (ta ++ tk' ++ tb)).length + 1))
-  refine ⟨_, _, ?_, hkl.1, hvl.1⟩
+  have hvo := rt_leaf_outerTrimmed (cs := s.cs) (allowed := metaValKind) (pre := p.c) (l := value) (post := p.d)
+    (ts := tc ++ tv ++ td) ((htc.append htv).append htd) hpc hpd hval
+    (offAt s.toks ((tm :: (ta ++ tk' ++ tb)).length + 1))
+  refine ⟨_, _, ?_, hkl.1, hvl.1, hvo⟩
   unfold metadataEntry
   simp only [bind, StateT.bind, h1, currentOffset_run, h2, bpText_run hrunKey, h3, h4, bpText_run hrunVal, get, getThe,
     MonadStateOf.get, StateT.get, hkl.2, hvl.2, Bool.false_eq_true, if_false, pure, StateT.pure]
@@ -371,8 +386,8 @@ theorem rtb_runBlock_meta (key value : List Tok) (p : MPad) (cs : CharSpec) (ext
     (ts : List Tok) (evs0 : Array (Ev α)) (panic : Option String) (hok : metaOK cs key value p = true)
     (hs : Spells ts (spellMeta key value p)) (hrun : RunAt (baseOff ts) ts) :
     ∃ ev : Ev α, runBlock cs ext true ts evs0 panic = (evs0.push ev, panic) ∧ MetaMatches cs key value ev := by
-  obtain ⟨k, v, hme, hk, hv⟩ := rtb_metadataEntry key value p (⟨ts, 0, ext, cs, evs0, panic⟩ : BP α) hok ts hs rfl rfl hrun
-  refine ⟨.metadata k v, ?_, ⟨hk, hv⟩⟩
+  obtain ⟨k, v, hme, hk, hv, hvo⟩ := rtb_metadataEntry key value p (⟨ts, 0, ext, cs, evs0, panic⟩ : BP α) hok ts hs rfl rfl hrun
+  refine ⟨.metadata k v, ?_, ⟨hk, hv, hvo⟩⟩
   obtain ⟨t0, tr, hts, hk0⟩ : ∃ t0 tr, ts = t0 :: tr ∧ t0.kind = .metaStart := by
     simp only [spellMeta, List.append_assoc, List.cons_append, List.nil_append] at hs
     obtain ⟨t, r, rfl, hk, -, -⟩ := hs.cons_inv
